@@ -66,6 +66,7 @@ def run_quoter_level(out, sc, tier, seed, prop, bounds=None, unq=False):
     shards += run_driver(sc, "quote", {"mode": "unicode_reps"}, "ureps", nslices=1)
     shards += run_driver(sc, "quote", {"mode": "width_sweep"}, "width", nslices=4)
     shards += run_driver(sc, "quote", {"mode": "subclass_str"}, "substr", nslices=1)
+    shards += run_driver(sc, "quote", {"mode": "run_adjacency"}, "runadj", nslices=2)
     shards += run_driver(sc, "quote", {"mode": "random", "n": b["random"], "seed": seed}, "random", nslices=8)
     # ---- R3: TLC validates every record against the contracts
     results = validate_shards("TraceQuote", trace_cfg(prop), shards, work)
